@@ -335,11 +335,15 @@ def readMeasure (table : List (Nat × Nat × List FOp)) (i : Nat) (s : BSt) : Na
 
 theorem readMeasure_step (table : List (Nat × Nat × List FOp)) (i : Nat) (s : BSt) (st : Stmt) (rest : List Stmt)
     (hq : (s.th i).qStmts = st :: rest) :
-    readMeasure table i (runInj table (readOne s i st rest) 3) < readMeasure table i s := by
-  have h1 := runInj3_budget table (readOne s i st rest) i
-  have h2 : PC.siteK (readOne s i st rest) 3 = PC.siteK s 3 := by
-    unfold PC.siteK; rw [readOne_siteCnt]
-  rw [h2, readOne_qStmts s i st rest (lt_of_qStmts_cons hq)] at h1
+    readMeasure table i (runInj table (readOneF s i st rest) 3) < readMeasure table i s := by
+  have h1 := runInj3_budget table (readOneF s i st rest) i
+  have hF := readOneF_eq s i st rest
+  have h2 : PC.siteK (readOneF s i st rest) 3 = PC.siteK s 3 := by
+    unfold PC.siteK; rw [hF.1, readOne_siteCnt]
+  have h3 : ((readOneF s i st rest).th i).qStmts = rest := by
+    have : (readOneF s i st rest).th i = (readOne s i st rest).th i := by simp only [BSt.th, hF.2.1]
+    rw [this, readOne_qStmts s i st rest (lt_of_qStmts_cons hq)]
+  rw [h2, h3] at h1
   unfold readMeasure
   rw [hq, List.length_cons]
   omega
